@@ -169,8 +169,77 @@ class Sched:
             t.join()
 
 
+DERIVES = ["div", "with_query", "with_host", "with_port", "with_path", "join", "origin", "with_user", "parent", "with_fragment"]
+READ_GROUPS = [["raw_host", "port", "str"], ["host_port_subcomponent", "authority", "parts", "name"], ["query", "query_string", "human_repr"]]
+
+
+def systematic_pairs(yarl, be, root, seed, n_pairs, outdir, stride):
+    """mode "sys1": for two-thread programs (one thread derives from a shared URL object, the other reads accessors of the
+    SAME object for the first time -- or both derive, or both construct), EVERY schedule with exactly one pre-emption of
+    thread 0 at yield k = 0, stride, 2*stride, ... (thread 1 then runs to completion, thread 0 resumes).  Deterministic and
+    complete for these pairs up to the stride."""
+    rnd = random.Random(seed * 104729 + 5)
+    allev, rd, written = [], 0, 0
+    templates = []
+    for d in DERIVES:
+        for g in READ_GROUPS:
+            templates.append((("derive", d), ("read", g)))
+            templates.append((("read", g), ("derive", d)))
+    for d in DERIVES[:5]:
+        templates.append((("derive", d), ("derive", d)))
+    templates.append((("ctor",), ("ctor",)))
+    # deterministic partition of ALL templates over the jobs (seed % 4 = job index), so every pair is covered in every run
+    njobs = 4
+    mine = [t for i, t in enumerate(templates) if i % njobs == seed % njobs][:n_pairs]
+    for ti, (a, b) in enumerate(mine):
+        base = rnd.choice(STRS)
+
+        def mk(op, s_):
+            if op[0] == "derive":
+                return [("derive", s_, op[1])]
+            if op[0] == "read":
+                return [("read", s_, op[1])]
+            return [("ctor", s_)]
+        # yield count of thread 0 alone
+        s0 = base + ("&" if "?" in base else "?") + f"sys{seed}x{ti}probe"
+        clear_all_lru(yarl)
+        probe = Sched([0] * 100000, root)
+        probe.run([lambda: run_prog(yarl, mk(a, s0), 0, "probe", []), lambda: None])
+        total = probe.yields
+        for k in range(0, total + 1, stride):
+            s_ = base + ("&" if "?" in base else "?") + f"sys{seed}x{ti}k{k}"
+            progs = [mk(a, s_), mk(b, s_)]
+            events = []
+            clear_all_lru(yarl)
+            for t in (0, 1):                         # sequential reference on the same (fresh) string
+                run_prog(yarl, progs[t], t, "seq", events)
+            clear_all_lru(yarl)
+            per = [[], []]
+            sch = Sched([0] * k + [1] * 100000, root)
+            sch.run([lambda t=t: run_prog(yarl, progs[t], t, "sys1", per[t]) for t in (0, 1)])
+            events += per[0] + per[1]
+            for i, ev in enumerate(events):
+                ev["id"] = f"{be}.sys1.{seed}.{ti}.{k}.{i}"
+            allev += events
+            rd += 1
+            if len(allev) > 6000:
+                with open(f"{outdir}/thr-sys1-{seed}-{written}.json", "w") as f:
+                    json.dump(allev, f, separators=(",", ":"))
+                allev, written = [], written + 1
+    if allev:
+        with open(f"{outdir}/thr-sys1-{seed}-{written}.json", "w") as f:
+            json.dump(allev, f, separators=(",", ":"))
+    print(json.dumps({"executions": rd}))
+
+
 def main():
     outdir, seed, mode, n = sys.argv[1], int(sys.argv[2]), sys.argv[3], int(sys.argv[4])
+    if mode == "sys1":
+        import yarl
+        be = "py" if os.environ.get("YARL_NO_EXTENSIONS") else "c"
+        systematic_pairs(yarl, be, os.path.dirname(yarl.__file__), seed, n, outdir, int(os.environ.get("VERIF_SYS_STRIDE", "1")))
+        yarl.cache_configure()
+        return
     import yarl
     be = "py" if os.environ.get("YARL_NO_EXTENSIONS") else "c"
     root = os.path.dirname(yarl.__file__)
